@@ -499,6 +499,32 @@ macro_rules! bfv_impl {
                         });
                         (r, o)
                     }
+                    "iter_nth" => {
+                        // two successive `Iterator::nth` calls (the second possibly after an
+                        // overshooting first one), then `len()` and the next item
+                        let (k, a, b) = (num(1), num(2), num(3));
+                        let n = s.oa.v.len();
+                        let o = if k <= n {
+                            let show = |i: usize| if i < n { s.oa.v[i].to_string() } else { "none".to_string() };
+                            let p1 = (k + a).min(n);
+                            let q1 = (p1 + 1).min(n);
+                            let p2 = (q1 + b).min(n);
+                            let q2 = (p2 + 1).min(n);
+                            format!("ok {} {} {} {}", show(k + a), show(q1 + b), n - q2, show(q2))
+                        } else {
+                            "panic".into()
+                        };
+                        let r = catch(|| {
+                            let f = |x: Option<_>| x.map(|x: $W| x.to_string()).unwrap_or("none".into());
+                            let mut it = s.a.iter_from(k);
+                            let x = it.nth(a);
+                            let y = it.nth(b);
+                            let l = ExactSizeIterator::len(&it);
+                            let nx = it.next();
+                            format!("ok {} {} {} {}", f(x), f(y), l, f(nx))
+                        });
+                        (r, o)
+                    }
                     "into_iter" => (
                         catch(|| fmt_list((&s.a).into_iter())).map(|x| format!("ok {}", x)),
                         format!("ok {}", fmt_list(s.oa.v.iter())),
@@ -1159,7 +1185,15 @@ fn gen_op(ctx: &mut Ctx, s: &AnyS, w: usize, atomic: bool) -> String {
             }
             42 => {
                 let k = gen_index(ctx, len).min(len + 2);
-                format!("{} {} {}", ctx.rng.pick(&["iter_hint", "into_iter_hint"]), k, ctx.rng.usize_below(len + 3))
+                if ctx.rng.chance(1, 3) {
+                    // `nth` twice: in range, exactly the last item, or overshooting (then the iterator
+                    // must stay exhausted)
+                    let mid = ctx.rng.usize_below(len + 1);
+                    let a = *ctx.rng.pick(&[0, mid, len.saturating_sub(k), len.saturating_sub(k + 1), len + 5]);
+                    format!("iter_nth {} {} {}", k, a, ctx.rng.usize_below(3))
+                } else {
+                    format!("{} {} {}", ctx.rng.pick(&["iter_hint", "into_iter_hint"]), k, ctx.rng.usize_below(len + 3))
+                }
             }
             43 => {
                 let x = (((ctx.rng.word() as u128) << 64) | ctx.rng.word() as u128) & omask(w);
